@@ -3,13 +3,14 @@
 set -e
 export GOFLAGS=-mod=mod GOPROXY=off GOSUMDB=off GOTOOLCHAIN=local
 S="$1"; shift
+REPO="${VERIF_REPO:-/repo}"
 mkdir -p "$S/instr"
 V=/verif
 if [ ! -x "$V/bin/instr" ] || [ "$V/tools/instr/main.go" -nt "$V/bin/instr" ]; then
   (cd $V/tools/instr && go build -o $V/bin/instr .)
 fi
-$V/bin/instr -repo /repo -out "$S/instr" -rt $V/rt \
+$V/bin/instr -repo "$REPO" -out "$S/instr" -rt $V/rt \
   -pkg workflow -pkg internal/step/plugin -pkg internal/step/foreach -pkg internal/infer -pkg . -pkg loadfile -pkg internal/yaml -pkg internal/step \
   -swap go.flow.arcalot.io/pluginsdk/atp=go.flow.arcalot.io/engine/internal/verif/fakeatp "$@"
-cp /repo/go.mod "$S/go.mod"; cp /repo/go.sum "$S/go.sum"
-(cd /repo && go build -modfile="$S/go.mod" -overlay "$S/instr/overlay.json" -o "$S/verifh" ./cmd/verifh)
+cp "$REPO/go.mod" "$S/go.mod"; cp "$REPO/go.sum" "$S/go.sum"
+(cd "$REPO" && go build -modfile="$S/go.mod" -overlay "$S/instr/overlay.json" -o "$S/verifh" ./cmd/verifh)
